@@ -60,21 +60,30 @@ void module_close_all(void) {}
 struct event *__real_event_new(struct event_base *, evutil_socket_t, short, event_callback_fn, void *);
 void __real_event_free(struct event *);
 #define MAX_TIMERS 65536
-static struct event *timers[MAX_TIMERS];
+static struct { struct event *ev; void *req; int client; } timers[MAX_TIMERS]; /* in creation order */
 static int n_timers;
 
 struct event *__wrap_event_new(struct event_base *b, evutil_socket_t fd, short ev, event_callback_fn cb, void *arg)
 {
     struct event *e = __real_event_new(b, fd, ev, cb, arg);
-    if (e && fd == -1 && ev == 0 && n_timers < MAX_TIMERS)
-        timers[n_timers++] = e;
+    if (e && fd == -1 && ev == 0 && n_timers < MAX_TIMERS) {
+        /* evtimer_new(ev_base, iauth_timeout, req): req->client is already set */
+        timers[n_timers].ev = e;
+        timers[n_timers].req = arg;
+        timers[n_timers].client = arg ? ((struct iauth_request *)arg)->client : 0;
+        n_timers++;
+    }
     return e;
 }
 void __wrap_event_free(struct event *e)
 {
     int i;
     for (i = 0; i < n_timers; i++)
-        if (timers[i] == e) { timers[i] = timers[--n_timers]; break; }
+        if (timers[i].ev == e) {
+            memmove(&timers[i], &timers[i + 1], (size_t)(n_timers - i - 1) * sizeof(timers[0]));
+            n_timers--;
+            break;
+        }
     __real_event_free(e);
 }
 
@@ -204,6 +213,33 @@ static void run_case(char **lines, int n)
             }
             emit_out();
             fprintf(rec, " %s\n", fired ? "fired" : "no-timer");
+        } else if (!strcmp(fv[0], "elapse")) {
+            /* real time passes beyond the configured timeout: every pending timer fires, oldest
+             * first; a timer whose request is no longer the live one for its id is an orphan */
+            struct event *snap[256];
+            void *sreq[256];
+            int sclient[256], ns = 0, k;
+            char fired[4096];
+            size_t fl = 0;
+            for (k = 0; k < n_timers && ns < 256; k++)
+                if (event_pending(timers[k].ev, EV_TIMEOUT, NULL)) {
+                    snap[ns] = timers[k].ev; sreq[ns] = timers[k].req; sclient[ns] = timers[k].client; ns++;
+                }
+            fired[0] = '\0';
+            for (k = 0; k < ns; k++) {
+                int j, still = 0;
+                for (j = 0; j < n_timers; j++) if (timers[j].ev == snap[k]) still = 1;
+                if (!still || !event_pending(snap[k], EV_TIMEOUT, NULL)) continue;
+                if ((void *)iauth_find_request(sclient[k]) == sreq[k])
+                    fl += (size_t)snprintf(fired + fl, sizeof(fired) - fl, "%s%d", fl ? "," : "", sclient[k]);
+                else
+                    fl += (size_t)snprintf(fired + fl, sizeof(fired) - fl, "%sorphan", fl ? "," : "");
+                event_active(snap[k], EV_TIMEOUT, 0);
+                event_base_loop(ev_base, EVLOOP_NONBLOCK);
+                if (fl > sizeof(fired) - 32) break;
+            }
+            emit_out();
+            fprintf(rec, " fired=%s\n", fired);
         } else if (!strcmp(fv[0], "reload") && nf >= 2) {
             size_t len;
             char *data = unhex(fv[1], &len);
